@@ -174,13 +174,61 @@ fn followup_ops(tag: u64) -> Vec<Value> {
 
 /// Opens a crash image with the real recovery code, dumps, commits one more
 /// transaction, reopens and dumps again.
-fn evaluate_image(ctx: &mut Ctx, img: &Image, op_idx: usize, op_kind: &str, keys: &[String], seq: u64) -> Value {
+/// Hostile log tails (C17): bytes appended after / damaged at the end of the log of an image.
+pub const TAIL_VARIANTS: [&str; 6] = ["zeros", "garbage", "hugelen", "shortbody", "crcflip", "bitflip"];
+
+fn apply_tail(wal: &mut Vec<u8>, variant: &str, seed: u64) {
+    match variant {
+        "zeros" => wal.extend(std::iter::repeat(0u8).take(64)),
+        "garbage" => {
+            let mut x = seed.wrapping_mul(0x9E3779B97F4A7C15) | 1;
+            for _ in 0..37 {
+                x ^= x << 13;
+                x ^= x >> 7;
+                x ^= x << 17;
+                wal.push((x & 0xff) as u8);
+            }
+        }
+        "hugelen" => {
+            wal.extend_from_slice(&0x7fff_fff0u32.to_le_bytes());
+            wal.extend_from_slice(&[1, 2, 3, 4, 5, 6, 7, 8, 9]);
+        }
+        "shortbody" => {
+            // a plausible header announcing 40 bytes, followed by only 5
+            wal.extend_from_slice(&40u32.to_le_bytes());
+            wal.extend_from_slice(&0xdeadbeefu32.to_le_bytes());
+            wal.extend_from_slice(&[1, 0, 0, 0, 0]);
+        }
+        "crcflip" => {
+            // a complete, well-formed looking record whose checksum is wrong
+            wal.extend_from_slice(&9u32.to_le_bytes());
+            wal.extend_from_slice(&0x12345678u32.to_le_bytes());
+            wal.extend_from_slice(&[1, 7, 0, 0, 0, 0, 0, 0, 0]);
+        }
+        "bitflip" => {
+            if let Some(b) = wal.last_mut() {
+                *b ^= 0x40;
+            }
+        }
+        _ => {}
+    }
+}
+
+fn evaluate_image(ctx: &mut Ctx, img: &Image, op_idx: usize, op_kind: &str, keys: &[String], seq: u64, tail: Option<&str>) -> Value {
     let dir = ctx.scratch.join("img");
-    write_image(&dir, &img.files);
+    let mut files = (*img.files).clone();
+    if let Some(t) = tail {
+        let wal = files.entry("g.wal".to_string()).or_default();
+        apply_tail(wal, t, seq);
+    }
+    write_image(&dir, &files);
     let mut ev = json!({
         "ev": "crash", "op": op_idx, "during": op_kind, "kind": img.kind,
         "step": img.step, "site": img.site,
     });
+    if let Some(t) = tail {
+        ev["tail"] = json!(t);
+    }
     match open_engine(&dir) {
         Err(e) => {
             ev["open"] = json!(e);
@@ -237,7 +285,7 @@ impl<'a> Run<'a> {
     }
 
     fn flush_images(&mut self, op_idx: usize, op_kind: &str) {
-        if self.ctx.mode != "crash" {
+        if self.ctx.mode != "crash" && self.ctx.mode != "tails" {
             return;
         }
         let images = self.ctx.obs.take_images();
@@ -252,7 +300,24 @@ impl<'a> Run<'a> {
             self.ctx.stats.images_distinct += 1;
             self.img_seq += 1;
             let keys = self.keys.clone();
-            let ev = evaluate_image(self.ctx, &img, op_idx, op_kind, &keys, self.img_seq);
+            if self.ctx.mode == "tails" {
+                // only process-death images (the log as written so far) get hostile tails
+                if img.kind != "process" || !img.files.contains_key("g.wal") {
+                    continue;
+                }
+                for t in TAIL_VARIANTS {
+                    // damaging the last record is only a crash artefact while that record belongs
+                    // to a transaction that is still being appended
+                    if t == "bitflip" && !img.site.starts_with("wal.append") {
+                        continue;
+                    }
+                    self.img_seq += 1;
+                    let ev = evaluate_image(self.ctx, &img, op_idx, op_kind, &keys, self.img_seq, Some(t));
+                    self.ctx.emit(ev);
+                }
+                continue;
+            }
+            let ev = evaluate_image(self.ctx, &img, op_idx, op_kind, &keys, self.img_seq, None);
             self.ctx.emit(ev);
         }
         self.ctx.obs.io.lock().unwrap().dir = saved_dir;
@@ -389,7 +454,7 @@ pub fn run_history(ctx: &mut Ctx, history: &Value) {
     }
 
     let dir = fresh_dir(&ctx.scratch.clone(), "db");
-    ctx.obs.start_io(&dir, ctx.mode == "crash");
+    ctx.obs.start_io(&dir, ctx.mode == "crash" || ctx.mode == "tails");
     ctx.emit(json!({"ev": "reset", "id": id, "mode": ctx.mode}));
     let engine = open_engine(&dir);
     let mut run = Run {
